@@ -383,7 +383,7 @@ pub enum Verdict {
     Fail(String),
 }
 
-pub const RADII: [usize; 5] = [0, 1, 2, 3, 5];
+pub const RADII: [usize; 6] = [0, 1, 2, 3, 5, usize::MAX];
 
 /// every configuration of one text pair
 pub fn check_pair(old: &[u8], new: &[u8], radii: &[usize]) -> Verdict {
@@ -547,7 +547,7 @@ fn text_case(old: &[u8], new: &[u8]) -> Value {
 pub fn run(cfg: &RunCfg) -> CheckReport {
     let mut rep = CheckReport::new(
         "exploration",
-        "every ordered pair of line texts of each listed text family (all sequences of up to L lines over content x terminator alphabets, plus an optional unterminated last line; texts deduplicated) x 3 algorithms x context radius {0,1,2,3,5} x file header {off,on} x {str (when UTF-8), [u8]} x {Display, to_writer}; one case = one text pair with all its configurations. Oracle: independent structure-driven parser (header counts drive the body length) + strict applier (positions, counts, context and '-' lines byte-equal to the old text, result byte-equal to the new text, marker exactly on unterminated lines, <= radius edge context, deletions before insertions, equal inputs => empty output, Display vs writer). Non-trivial: texts differ. A failing configuration is re-rendered with the H2 swap repair armed: passes then and >= 1 compaction swap happened => known finding KF1. Pairs are distinct within a family; families overlap only in a handful of short texts.",
+        "every ordered pair of line texts of each listed text family (all sequences of up to L lines over content x terminator alphabets, plus an optional unterminated last line; texts deduplicated) x 3 algorithms x context radius {0,1,2,3,5,usize::MAX} x file header {off,on} x {str (when UTF-8), [u8]} x {Display, to_writer}; one case = one text pair with all its configurations. Oracle: independent structure-driven parser (header counts drive the body length) + strict applier (positions, counts, context and '-' lines byte-equal to the old text, result byte-equal to the new text, marker exactly on unterminated lines, <= radius edge context, deletions before insertions, equal inputs => empty output, Display vs writer). Non-trivial: texts differ. A failing configuration is re-rendered with the H2 swap repair armed: passes then and >= 1 compaction swap happened => known finding KF1. Pairs are distinct within a family; families overlap only in a handful of short texts.",
     );
     rep.assume("the parser accepts exactly the format the statement describes (file header only before the first hunk; '@' starts a hunk header; ' ', '-', '+' start body lines; the marker line belongs to the preceding body line)");
     rep.assume("H2 attribution hook; KF1 listed in known_findings.json");
